@@ -242,6 +242,14 @@ fn parse_decimal_str(s: &str, node: &Node) -> ParseResult<Decimal> {
 /// Parse a CGT file. Amounts are parsed with their original currency; GBP conversion
 /// is deferred to calculation time.
 pub fn parse_file(input: &str) -> std::result::Result<Vec<Transaction>, CgtError> {
+    // pest counts lines by LF only: with bare-CR line endings every error would be reported on line 1
+    let normalized;
+    let input = if input.contains('\r') {
+        normalized = input.replace("\r\n", "\n").replace('\r', "\n");
+        normalized.as_str()
+    } else {
+        input
+    };
     let inputs = CgtParser::parse(Rule::transaction_list, input)
         .map_err(|e| CgtError::ParseError(Box::new(e)))?;
 
